@@ -378,17 +378,17 @@ func (s *Server) TailLog(n int) string {
 	return sb.String()
 }
 
-// PanicInLogs scans stdout and the log directory for Go panics / fatal errors.
+// PanicInLogs scans the process' stdout/stderr for an unrecovered Go panic or fatal runtime error (what kills
+// the process). Panics that the server recovers per query and writes to its error log are reported by
+// RecoveredPanics instead (informational: the process keeps running).
 func (s *Server) PanicInLogs() string {
 	files, _ := filepath.Glob(filepath.Join(s.Dir, "stdout-*.log"))
-	lf, _ := filepath.Glob(filepath.Join(s.LogDir(), "*.log"))
-	files = append(files, lf...)
 	for _, f := range files {
 		b, err := os.ReadFile(f)
 		if err != nil {
 			continue
 		}
-		for _, pat := range []string{"panic: ", "fatal error: ", "unexpected signal"} {
+		for _, pat := range []string{"\npanic: ", "fatal error: ", "unexpected signal", "\ngoroutine 1 ["} {
 			if i := bytes.Index(b, []byte(pat)); i >= 0 {
 				end := i + 1500
 				if end > len(b) {
@@ -399,6 +399,20 @@ func (s *Server) PanicInLogs() string {
 		}
 	}
 	return ""
+}
+
+// RecoveredPanics counts "panic" entries in the server's own log files.
+func (s *Server) RecoveredPanics() int {
+	n := 0
+	lf, _ := filepath.Glob(filepath.Join(s.LogDir(), "*.log"))
+	for _, f := range lf {
+		b, err := os.ReadFile(f)
+		if err != nil {
+			continue
+		}
+		n += bytes.Count(b, []byte("runtime panic"))
+	}
+	return n
 }
 
 // ---------------------------------------------------------------- HTTP
